@@ -46,6 +46,12 @@ func runC02(c *h.Ctx) {
 	if c.Want("type") {
 		typeCheckRT(c)
 	}
+	if c.Want("floats") {
+		floatsCheck(c)
+	}
+	if c.Want("interleave") {
+		interleaveCheck(c)
+	}
 	if c.Want("json") {
 		jsonCheck(c)
 	}
@@ -75,6 +81,7 @@ type replayObj struct {
 	S     string  `json:"s,omitempty"`
 	T     *TSpec  `json:"t,omitempty"`
 	Doc   *jdoc   `json:"doc,omitempty"`
+	IL    *ilCase `json:"il,omitempty"`
 	Text  string  `json:"text,omitempty"`
 }
 
@@ -97,6 +104,8 @@ func replayOne(c *h.Ctx, raw json.RawMessage) {
 		typeCase(c, c.Model(), ro.T, true)
 	case "json":
 		jsonCase(c, c.Model(), ro.Doc, ro.Text)
+	case "interleave":
+		ilCase1(c, ro.IL)
 	}
 }
 
@@ -110,10 +119,27 @@ func genRTCase(c *h.Ctx, g *gen) *rtCase {
 			cs.Persist = []string{".*", "^x$", "^(x|y|port)$", "é", "^$"}[r.Intn(5)]
 		}
 	}
+	if !g.plain && r.Intn(2) == 0 {
+		// the same named types again and again: later occurrences are written by bare name
+		names := []string{"x", "y", "z", "port", "conn"}
+		r.Shuffle(len(names), func(i, j int) { names[i], names[j] = names[j], names[i] })
+		g.makePool(1+r.Intn(3), names)
+		if n > 1 || r.Intn(2) == 0 {
+			n += r.Intn(3)
+		}
+	}
 	for i := 0; i < n; i++ {
-		t, v := g.genCase(1 + r.Intn(3))
+		var t *TSpec
+		var v *VSpec
+		if len(g.pool) > 0 && r.Intn(3) == 0 {
+			t = cloneT(g.pool[r.Intn(len(g.pool))])
+			v = g.genVal(t, 2, []int{0, 1, 3}[r.Intn(3)])
+		} else {
+			t, v = g.genCase(1 + r.Intn(3))
+		}
 		cs.Vals = append(cs.Vals, tv{t, v})
 	}
+	g.pool = nil
 	return cs
 }
 
